@@ -971,6 +971,10 @@ package rib
 //@ ensures[verdict-final] newIDsNotHeld(r, *oks, old(len(*oks))) && newIDsNotHeld(r, *fails, old(len(*fails)))
 //@ ensures[stack-monotone] forall k in old(dom(installStack)) :: old(installStack[k]) ==> installStack[k]
 //@ ensures[held-shrinks] forall k in dom(r.pendingEntries) :: k in old(dom(r.pendingEntries)) || k == op.GetId()
+// retried: the ids of the held operations that were re-examined (addEntryInternal called on them)
+// after an installation - the mechanism behind "a held operation is never left unanswered while
+// it is resolvable": after every successful install each operation of the held-set snapshot is retried.
+//@ ghostvar retried IntSet
 //@ ensures[answered-or-held] result0 == nil && !old(installStack[op.GetId()]) ==>
 //@    (exists i in old(len(*oks))..len(*oks) :: (*oks)[i].ID == op.GetId()) || (exists i in old(len(*fails))..len(*fails) :: (*fails)[i].ID == op.GetId())
 //@    || op.GetId() in dom(r.pendingEntries)
@@ -979,6 +983,7 @@ package rib
 //@ assert at "has unresolved dependencies" [failed-no-trace] keptAll(niR.r.Afts) && r.disableForwardReferences
 //@ assert at "r.addPending(op.GetId()" [held-no-trace] keptAll(niR.r.Afts) && !r.disableForwardReferences
 //@ loop 1 modular
+//@ at "r.addEntryInternal(" ghost retried = add(retried, e.op.GetId())
 //@ at "r.addEntryInternal(" ghost oksBefore = *oks
 //@ at "r.addEntryInternal(" ghost failsBefore = *fails
 //@ at "r.addEntryInternal(" ghost pendBefore = dom(r.pendingEntries)
@@ -1003,6 +1008,9 @@ package rib
 //@ loop 1 invariant forall k in dom(r.pendingEntries) :: k in old(dom(r.pendingEntries))
 //@ loop 1 invariant (exists i in old(len(*oks))..len(*oks) :: (*oks)[i].ID == op.GetId()) && oks != nil && fails != nil && installStack != nil && opWF(op)
 //@ loop 1 invariant forall j in 0..len(ranged) :: ranged[j] != nil && opWF(ranged[j].op) && ranged[j].op.GetId() in old(dom(r.pendingEntries)) && ranged[j].ni == ranged[j].op.GetNetworkInstance()
+//@ loop 1 invariant[every-held-op-retried] forall j in 0..loopi :: ranged[j].op.GetId() in retried
+//@ loop 1 invariant forall k: uint64 :: old(retried)[k] ==> retried[k]
+//@ ensures[retried-monotone] forall k: uint64 :: old(retried)[k] ==> retried[k]
 //@ assigns ribState, *oks, *fails, contents(installStack), spawned, hookCount
 //@ props C01 C02 C06 C12:safety C12:ensures#fatal-unknown-ni C12:ensures#answered-or-held
 
